@@ -1,7 +1,7 @@
 /* ASSUMED INTERFACE of the dictionary descriptors (include/clstepcore/ExpDict.h is rejected by the CBMC C++
  * front end): declarations only -- every member is an external function, arbitrary unless the unit gives it a
- * body/contract.  Member signatures are checked against the real header by a native static_assert TU
- * (engine: iface check) on every run. */
+ * body/contract.  Every member declared here is checked against the real headers by the native TU
+ * stubs/repo/iface_check.cc (g++ -fsyntax-only) on every run of a unit that includes this file. */
 #ifndef VERIF_EXPDICT_IFACE_H
 #define VERIF_EXPDICT_IFACE_H
 #include "clstepcore/baseType.h"
@@ -12,14 +12,14 @@ class TypeDescriptor { public:
   const char *Name(const char *schnm = 0) const;
   PrimitiveType NonRefType() const; PrimitiveType Type() const; PrimitiveType BaseType() const;
   const TypeDescriptor *BaseTypeDescriptor() const;
-  const char *AttrTypeName(std::string &buf, const char *schnm = 0) const;
+  void AttrTypeName(std::string &buf, const char *schnm = 0) const;
   const TypeDescriptor *NonRefTypeDescriptor() const; };
-class EntityDescriptor : public TypeDescriptor { public: bool IsA(const EntityDescriptor *) const; bool IsA(const char *) const; const TypeDescriptor *IsA(const TypeDescriptor *) const; };
+class EntityDescriptor : public TypeDescriptor { public: const EntityDescriptor *IsA(const EntityDescriptor *) const; const TypeDescriptor *IsA(const char *) const; const TypeDescriptor *IsA(const TypeDescriptor *) const; };
 class AttrDescriptor { public:
   const char *Name() const; const std::string TypeName() const;
   PrimitiveType NonRefType() const; PrimitiveType Type() const; PrimitiveType BaseType() const;
   int IsAggrType() const; PrimitiveType AggrElemType() const;
   const TypeDescriptor *AggrElemTypeDescriptor() const; const TypeDescriptor *ReferentType() const; const TypeDescriptor *DomainType() const;
-  const SDAI_LOGICAL &Optionality() const; int Derived() const; enum AttrType_Enum AttrType() const;
+  const SDAI_LOGICAL &Optionality() const; enum AttrType_Enum AttrType() const;
   const TypeDescriptor *NonRefTypeDescriptor() const; };
 #endif
